@@ -291,4 +291,20 @@ def checkStep (b : View) (op : Op) (out : Out) (a : View) : Option String :=
     | _, _ => none
   | _ => none
 
+/-- a recorded defect of the unchanged library (findings/C03.json, `C03-bulk-namespace`), judged apart
+from `checkStep` (whose clauses are theorems of the model): under a non-empty namespace the map form
+looks the names of the map up *with* the namespace (cpp:138, 158) and hands them to the pair form,
+which prepends the namespace again (cpp:81): a map that names only existing parameters is answered
+`ParameterNotFoundException`.  The model transcribes it (`C03.bulk_namespace_witness`). -/
+def checkKnown (b : View) (op : Op) (out : Out) : Option String :=
+  match op with
+  | .bulk k es =>
+    match b.get k with
+    | some sb =>
+      if sb.pre != "" && !es.isEmpty &&
+          es.all (fun e => sb.params.any (fun p => p.name == e.1) && sb.params.any (fun p => p.name == e.2)) &&
+          out == .err .notfound then some "bulk_namespace" else none
+    | none => none
+  | _ => none
+
 end Bpp.Alias
